@@ -206,9 +206,12 @@ static int streamDispatch(MPT_INTERFACE(input) *in, MPT_TYPE(event_handler) cmd,
 	
 	if ((len = srm->data._rd._state.data.msg) < 0) {
 		if ((ret = mpt_queue_recv(&srm->data._rd)) < 0) {
-			return ret;
+			/* dispatcher enlarges input buffer for decoder */
+			if (!cmd || ret != MPT_ERROR(MissingBuffer)) {
+				return ret;
+			}
 		}
-		if (!ret) {
+		else if (!ret) {
 			if ((ret = _mpt_stream_fread(&srm->data._info)) < 0) {
 				return 0;
 			} else {
